@@ -286,7 +286,7 @@ pub fn main(args: &[String]) {
     }
     quiet_panics();
     let mut rng = StdRng::seed_from_u64(env_seed() ^ 0x4157_0011);
-    let n = if tier == "thorough" { 3000 } else { 400 };
+    let n = if tier == "thorough" { 3000 } else if tier == "feat" { 120 } else { 400 };
     let mut recs = Vec::new();
     for k in 0..n {
         one_history(&mut rng, format!("h{}", k), &mut recs, persist);
